@@ -423,6 +423,81 @@ func c08Semantic(s *source, e *emitter) {
 	if v, ok := s.constValue(fo, "notSymbol"); ok {
 		notSym["notSymbol"] = v.ExactString()
 	}
+	// --- round 4: the front ends and glue that forward to the unmarshaller
+	const va = "core/mapping/valuer.go"
+	e.shapeDef(s, va, "simpleValuer.Value", "simpleValuerValueShape")
+	e.shapeDef(s, va, "simpleValuer.Parent", "simpleValuerParentShape")
+	e.shapeDef(s, va, "recursiveValuer.Value", "recursiveValuerValueShape")
+	e.shapeDef(s, va, "recursiveValuer.Parent", "recursiveValuerParentShape")
+	e.shapeDef(s, va, "mapValuer.Value", "mapValuerValueShape")
+	e.shapeDef(s, um, "createValuer", "createValuerShape")
+	calls := func(rel, fn, lean string) {
+		fd := s.findFunc(rel, fn)
+		var out []string
+		if fd == nil {
+			e.errors = append(e.errors, "function "+fn+" not found in "+rel)
+			out = []string{"MISSING"}
+		} else {
+			// every call with its arguments, and every return statement, in source order
+			ast.Inspect(fd.Body, func(n ast.Node) bool {
+				switch x := n.(type) {
+				case *ast.CallExpr:
+					out = append(out, "call "+strings.Join(strings.Fields(s.src(x)), " "))
+				case *ast.ReturnStmt:
+					out = append(out, strings.Join(strings.Fields(s.src(x)), " "))
+					return false
+				}
+				return true
+			})
+		}
+		e.stringList(lean, "calls (with arguments) and returns of `"+fn+"` in "+rel, out)
+	}
+	calls("core/mapping/yamlunmarshaler.go", "UnmarshalYamlBytes", "unmarshalYamlBytesCalls")
+	calls("core/mapping/tomlunmarshaler.go", "UnmarshalTomlBytes", "unmarshalTomlBytesCalls")
+	calls("core/mapping/yamlunmarshaler.go", "UnmarshalYamlReader", "unmarshalYamlReaderCalls")
+	calls("core/mapping/tomlunmarshaler.go", "UnmarshalTomlReader", "unmarshalTomlReaderCalls")
+	calls("core/mapping/jsonunmarshaler.go", "UnmarshalJsonBytes", "unmarshalJsonBytesCalls")
+	calls("core/mapping/jsonunmarshaler.go", "UnmarshalJsonMap", "unmarshalJsonMapCalls")
+	calls("core/mapping/jsonunmarshaler.go", "getJsonUnmarshaler", "getJsonUnmarshalerCalls")
+	calls("core/mapping/jsonunmarshaler.go", "unmarshalJsonBytes", "unmarshalJsonBytesInnerCalls")
+	const cf = "core/conf/config.go"
+	calls(cf, "LoadFromJsonBytes", "confLoadFromJsonBytesCalls")
+	calls(cf, "LoadFromYamlBytes", "confLoadFromYamlBytesCalls")
+	calls(cf, "LoadFromTomlBytes", "confLoadFromTomlBytesCalls")
+	calls(cf, "toLowerCase", "confToLowerCaseCalls")
+	e.shapeDef(s, cf, "Load", "confLoadShape")
+	e.shapeDef(s, cf, "toLowerCaseKeyMap", "confLowerKeyMapShape")
+	// the loaders table of core/conf: extension -> loader
+	{
+		var out []string
+		if f := s.file(cf); f != nil {
+			ast.Inspect(f, func(n ast.Node) bool {
+				vs, ok := n.(*ast.ValueSpec)
+				if !ok {
+					return true
+				}
+				for i, nm := range vs.Names {
+					if nm.Name == "loaders" && i < len(vs.Values) {
+						if cl, ok := vs.Values[i].(*ast.CompositeLit); ok {
+							for _, el := range cl.Elts {
+								out = append(out, strings.Join(strings.Fields(s.src(el)), " "))
+							}
+						}
+					}
+				}
+				return true
+			})
+		}
+		if len(out) == 0 {
+			e.errors = append(e.errors, "loaders table not found in "+cf)
+		}
+		e.stringList("confLoaders", "the loaders table of core/conf", out)
+	}
+	calls("rest/httpx/requests.go", "ParseHeaders", "httpParseHeadersCalls")
+	calls("rest/httpx/requests.go", "ParseForm", "httpParseFormCalls")
+	calls("rest/httpx/requests.go", "ParsePath", "httpParsePathCalls")
+	calls("rest/httpx/requests.go", "ParseJsonBody", "httpParseJsonBodyCalls")
+	calls("rest/httpx/requests.go", "withJsonBody", "httpWithJsonBodyCalls")
 	// --- encoding.ParseHeaders: scalar or slice
 	ph := s.findFunc("rest/internal/encoding/parser.go", "ParseHeaders")
 	var phIf *ast.IfStmt
